@@ -844,8 +844,8 @@ def a_binop(lib, ins, p):
 
 
 def f_binop(ins, p, res):
-    same = ins[0].pd.index.equals(ins[1].pd.index)
-    return (ins[0].order and ins[1].order and same), True
+    # operands with unknown divisions are aligned by a hash shuffle: the row SET is pandas', the order is not defined
+    return False, True
 
 
 Op("binop_series", 2, ["series", "series"], s_binop_series, a_binop, flags=f_binop, needs_index=True, weight=1.0, tags=["align", "elemwise"], src="{0} {op} {1}")
@@ -858,7 +858,7 @@ def s_assign_from(rng, ins):
     return {"name": rng.choice(["oth", "z1"])}
 
 
-Op("assign_from_other", 2, ["frame", "series"], s_assign_from, lambda lib, ins, p: ins[0].assign(**{p["name"]: ins[1]}), needs_index=True, weight=0.8, tags=["align", "assign"], src="{0}.assign({name}={1})")
+Op("assign_from_other", 2, ["frame", "series"], s_assign_from, lambda lib, ins, p: ins[0].assign(**{p["name"]: ins[1]}), flags=F(order=False), needs_index=True, weight=0.8, tags=["align", "assign"], src="{0}.assign({name}={1})")
 
 
 def s_filter_by_other(rng, ins):
@@ -868,7 +868,7 @@ def s_filter_by_other(rng, ins):
     return {}
 
 
-Op("filter_by_other", 2, ["frame", "series"], s_filter_by_other, lambda lib, ins, p: ins[0][ins[1]], needs_index=True, weight=0.6, tags=["align", "filter"], src="{0}[{1}]")
+Op("filter_by_other", 2, ["frame", "series"], s_filter_by_other, lambda lib, ins, p: ins[0][ins[1]], flags=F(order=False), needs_index=True, weight=0.6, tags=["align", "filter"], src="{0}[{1}]")
 
 
 def s_concat(rng, ins):
